@@ -30,6 +30,7 @@ pub fn find(name: &str) -> Option<LaneFn> {
         "pass" => pass::run_lane,
         "proto" => proto::run,
         "lex" => lex::run,
+        "fault" => lex::run_fault,
         "mem" => mem::run,
         "memrw" => memrw::run,
         "memts" => memts::run,
